@@ -119,6 +119,13 @@ def corpus_inputs(name):
 		T = 3; dsl = [DemandSource(type='CD', demand_list=[4, 8, 12, 16], probabilities=[0.1, 0.2, 0.3, 0.4]) for _ in range(T)]
 		hl, pl, cl, Kl, gl = [1, 2, 1], [10, 5, 10], [1, 0, 2], [12] * T, [1.0] * T
 		kw = dict(demand_source=list(dsl)); kind = 'CD'
+	elif name in ('cheap-stockouts', 'cheap-stockouts-poisson'):
+		# stockouts hardly dearer than buying (p < 2c) over several periods: at low inventory positions NOT ordering competes with ordering, so the cells
+		# near the lower end of the state space (where demand outcomes are clamped to the lowest state) decide the policy
+		T = 6 if name == 'cheap-stockouts' else 4
+		dsl = [None] * T if name == 'cheap-stockouts' else [DemandSource(type='P', mean=5) for _ in range(T)]
+		hl, pl, cl, Kl, gl = [1] * T, [5] * T, [4] * T, [10] * T, [1.0] * T
+		kw = dict(demand_mean=8, demand_sd=2) if name == 'cheap-stockouts' else dict(demand_source=list(dsl)); kind = 'normal-cheap-stockouts' if name == 'cheap-stockouts' else 'P'
 	elif name == 'forward-buying':
 		# purchase cost jumps after period 1 and holding is cheap: the optimal first order-up-to level lies far above the initial
 		# truncation of the state space, so the code must enlarge its grid and restart
@@ -302,7 +309,7 @@ def run(rep, drv):
 				'custom-discrete sources; every cell of cost_matrix vs the documented recursion (exact model), oul by objective value, (s,S) extraction, evaluation mode, K=0; '
 				'myopic bounds. non-trivial = all')
 	rng = random.Random(rep.seed + 12)
-	for name in ('mixed-equal-moments', 'rising-fixed-costs', 'forward-buying', 'source-edited-in-place', 'varying-everything'):
+	for name in ('mixed-equal-moments', 'rising-fixed-costs', 'forward-buying', 'source-edited-in-place', 'varying-everything', 'cheap-stockouts', 'cheap-stockouts-poisson'):
 		run_case(rep, drv, rng, th, corpus=name)
 	for k in range(300 if th else 34):
 		run_case(rep, drv, rng, th)
